@@ -153,15 +153,28 @@ pub fn gen_source(rng: &mut Prng, kind: Kind) -> SourceSpec {
     let n = kind.from_rng_len();
     if rng.chance(1, 30) {
         if let Some(b) = zero_replacement_bytes(kind) {
-            return SourceSpec { zero_run: 0, prefix: b, key: rng.u64(), fault: None };
+            return SourceSpec { zero_run: 0, prefix: b, key: rng.u64() | 1, fault: None };
         }
+    }
+    if kind != Kind::XorShift && rng.chance(1, 8) {
+        // a short key followed by zeros only (XorShiftRng would redraw an all-zero tail for ever, so it is
+        // left out): 1..72 explicit bytes, sometimes with a zero head as well
+        let len = rng.range(1, 72) as usize;
+        let mut prefix = if rng.chance(1, 2) { rng.bytes(len) } else { gen_seed_bytes(rng, len.max(8)) };
+        if rng.chance(1, 3) {
+            let z = rng.below(len as u64) as usize;
+            for b in prefix.iter_mut().take(z) {
+                *b = 0;
+            }
+        }
+        return SourceSpec { zero_run: 0, prefix, key: 0, fault: None };
     }
     let prefix = match rng.below(4) {
         0 => Vec::new(),
         1 => gen_seed_bytes(rng, n.min(64)),
         _ => rng.bytes(n),
     };
-    SourceSpec { zero_run: 0, prefix, key: rng.u64(), fault: None }
+    SourceSpec { zero_run: 0, prefix, key: rng.u64() | 1, fault: None }
 }
 
 /// A source that stays at zero for tens of thousands of blocks before it delivers something else
@@ -486,4 +499,26 @@ pub fn run_seeding_sweep(spec: &Spec, st: &mut Stats) -> Result<(), (u64, SutFai
     }
     st.sig(&[77, kind.id(), mode]);
     Ok(())
+}
+
+
+/// An ISAAC generator that is FAR ALONG in its stream: the block counter `c` (the last word of the
+/// durable image) is set to `value` through the image. Every counter value is reached by a long
+/// enough honest history (2^24 blocks are 16 GiB of output), which no run can afford to generate.
+pub fn far_along(g: &dyn DynGen, value: u64) -> Option<Box<dyn DynGen>> {
+    let kind = g.kind();
+    if !matches!(kind, Kind::Isaac | Kind::Isaac64) {
+        return None;
+    }
+    let w = (kind.word_bits() / 8) as usize;
+    let mut img = guard(|| g.snapshot(crate::gens::SnapFmt::Bincode)).ok()??;
+    let n = img.len();
+    if n < w {
+        return None;
+    }
+    img[n - w..].copy_from_slice(&value.to_le_bytes()[..w]);
+    match guard(|| crate::gens::restore(kind, crate::gens::SnapFmt::Bincode, &img)) {
+        Ok(Ok(r)) => Some(r),
+        _ => None,
+    }
 }
